@@ -49,6 +49,9 @@ def r08_1(chk):
 
 
 def r08_2_single_source(chk):
+    from ..terms import (SELF, NONE, A, K, contains, subterms, is_call, call_arg, call_name, pp, alternatives,
+                         return_alternatives, attr_stores)
+    from ._layout import field_plan
     ix, cg = chk.ix, chk.cg
     ch = ix.get_class("ChannelItem")
     rca = ix.get_class("ReprCodeAttribute")
@@ -59,118 +62,192 @@ def r08_2_single_source(chk):
     chk.require(bool(callers) and all(s.caller is scd for s in callers), "R08.2", "code-set-only-with-cast-dtype",
                 f"REPRESENTATION-CODE is set from {[s.caller.short for s in callers]}; it must be set by the function "
                 f"that stores the cast dtype, from that dtype", sfd.where)
-    s = norm(scd.node)
-    chk.require("self._cast_dtype = dt" in s and "self.representation_code.set_from_dtype(self.cast_dtype)" in s, "R08.2",
-                "code-derived-from-stored-cast-dtype", "the code is not derived from the cast dtype just stored", scd.where)
+    ss = chk.terms.inline(scd, 2, stop=lambda g: g is sfd or (g.cls is not None and g.cls.name == "ReprCodeConverter"))
+    dt = ("param", scd.param_names[1])
+    stored = [e for e in ss.stores("_cast_dtype") if e.base == SELF]
+    sets = [c for c in ss.all_calls("set_from_dtype")]
+    ok = len(stored) == 1 and stored[0].value == dt and not [l for l in stored[0].pc if not contains(l, dt)] and \
+        bool(sets) and all(call_arg(c, 0) in (dt, A(SELF, "_cast_dtype"), A(SELF, "cast_dtype")) for c in sets)
+    chk.require(ok, "R08.2", "code-derived-from-stored-cast-dtype", "the code is not derived from the cast dtype just "
+                "stored (the dtype given to _set_cast_dtype is stored and handed to set_from_dtype)", scd.where)
     writers = [(f, st) for f in ix.functions.values() for st in stores_in(f)
                if st.attr == "_value" and f.cls is not None and rca in f.cls.mro() and f.name != "__init__"]
     chk.require(all(f is sfd for f, st in writers), "R08.2", "code-value-single-writer",
                 f"the code value is written by {[f.short for f, st in writers]}", rca.where)
     # per-field dtype selection in determine_dtypes
-    dd = ix.get_method("SourceDataWrapper", "determine_dtypes")
-    chk.consult(dd)
-    rd = ReachingDefs(dd)
-    loops = [n for n in walk_local(dd.node) if isinstance(n, ast.For)]
-    if len(loops) != 1:
-        raise AnalysisError("determine_dtypes: expected one loop over the mapping")
-    loop = loops[0]
-    tnames = [n.id for n in ast.walk(loop.target) if isinstance(n, ast.Name)]
-    apps = [n for n in walk_local(dd.node) if isinstance(n, ast.Call) and isinstance(n.func, ast.Attribute)
-            and n.func.attr == "append" and norm(n.func.value) == "dtypes"]
-    for a in apps:
-        at = rd.stmt_containing(a)
-        flows = rd.expand(a.args[0], at)
-        per_field = [fl for fl in flows if f"known_dtypes.get({tnames[0]}" in fl.replace(" ", "")]
-        carried = [fl for fl in flows if "[" in fl and any(f"[{t}]" in fl.replace(" ", "") for t in tnames)
-                   and "data_object[" not in fl and "mapping[" not in fl]
-        chk.require(bool(per_field) and not carried, "R08.2", "field-dtype-chosen-per-field",
-                    f"the dtype of a chunk field is not (only) `known_dtypes.get(<field name>, <source dtype>)` of the "
-                    f"same loop iteration (carried over: {carried[:1]}): two channels mapped on one data set, or a channel "
-                    f"with a cast dtype, can be written with another channel's type while their codes differ",
-                    f"{dd.module.relpath}:{a.lineno}")
+    fp = field_plan(chk)
+    el = fp.elem
+    name_t, loc_t = ("sub", el, K(0)), ("sub", el, K(1))
+    chk.floor("field descriptor alternatives in determine_dtypes", len(fp.alts), 2)
+    for conds, tup in fp.alts:
+        comps = tup[1] if tup[0] == "tuple" else ()
+        ok = len(comps) in (2, 3) and comps[0] == name_t
+        gets = [x for x in subterms(comps[1]) if is_call(x, "get", 2)] if ok else []
+        ok = ok and len(gets) == 1 and gets[0][2][0] == name_t and gets[0][2][1][0] == "attr" and \
+            gets[0][2][1][2] == "dtype" and contains(gets[0][2][1][1], ("sub", ("param", fp.func.param_names[0]), loc_t))
+        others = [x for x in subterms(comps[1]) if x[0] == "sub" and contains(x[2], lambda y: y[0] == "elem") and
+                  x[1] not in (el, ("param", fp.func.param_names[0]))] if len(comps) > 1 else []
+        chk.require(ok and not others, "R08.2", "field-dtype-chosen-per-field",
+                    f"the dtype of a chunk field is `{pp(comps[1])[:80] if len(comps) > 1 else '?'}`, not (only) "
+                    f"`known_dtypes.get(<field name>, <dtype of the data set mapped to that field>)`: two channels mapped "
+                    f"on one data set, or a channel with a cast dtype, can be written with another channel's type while "
+                    f"their codes differ", fp.func.where)
     mk = ix.get_method("LogicalFile", "_make_multi_frame_data")
-    calls = [n for n in walk_local(mk.node) if isinstance(n, ast.Call) and kw(n, "known_dtypes") is not None]
-    chk.floor("wrapper constructions in _make_multi_frame_data", len(calls), 2)
+    ms = chk.summary(mk)
+    calls = [c for c in ms.all_calls() if call_arg(c, kw="known_dtypes") is not None]
+    chk.floor("wrapper constructions in _make_multi_frame_data", len(calls), 1)
+    frp = ("param", mk.param_names[1])
     for c in calls:
-        chk.require(norm(kw(c, "known_dtypes")) == "fr.known_channel_dtypes_mapping"
-                    and norm(kw(c, "mapping")) == "fr.channel_name_mapping", "R08.2",
-                    f"wrapper-gets-frame-mappings:{norm(c.func)[-30:]}",
-                    "a data wrapper is built without the frame's channel / cast-dtype mappings", f"{mk.module.relpath}:{c.lineno}")
+        chk.require(call_arg(c, kw="known_dtypes") == A(frp, "known_channel_dtypes_mapping")
+                    and call_arg(c, kw="mapping") == A(frp, "channel_name_mapping"), "R08.2",
+                    f"wrapper-gets-frame-mappings:{(call_name(c) or pp(c[1]))[-30:]}",
+                    "a data wrapper is built without the frame's channel / cast-dtype mappings", mk.where)
     fr = ix.get_class("FrameItem")
     p = fr.lookup("known_channel_dtypes_mapping")
-    chk.require(p.kind == "property" and not any("cached" in d for d in p.decorators)
-                and "ch.cast_dtype for ch in self.channels.value if ch.cast_dtype is not None" in norm(p.node), "R08.2",
-                "known-dtypes-live", "the cast-dtype mapping is not recomputed from the channels' current cast dtypes",
-                p.where)
+    ps = chk.summary(p)
+    chans = A(SELF, "channels", "value")
+    good = False
+    for _, t in return_alternatives(ps):
+        if t[0] == "comp" and t[1] == "dict" and len(t[3]) == 1 and t[3][0][1] == chans:
+            e = [x for x in subterms(t[2][0]) if x[0] == "elem" and x[1] == chans]
+            if e:
+                e = e[0]
+                good = t[2] == (A(e, "name"), A(e, "cast_dtype")) and \
+                    t[3][0][2] == (("cmp", "is not", A(e, "cast_dtype"), NONE),)
+    chk.require(p.kind == "property" and not any("cache" in d for d in p.decorators) and good, "R08.2",
+                "known-dtypes-live", "the cast-dtype mapping is not recomputed from the channels' current cast dtypes "
+                "({ch.name: ch.cast_dtype for the channels that have one})", p.where)
 
 
 def r08_3_setup_on_every_path(chk):
+    from ..terms import SELF, A, contains, subterms, is_call, call_arg, call_name, pp, alternatives
     ix = chk.ix
     mk = ix.get_method("LogicalFile", "_make_multi_frame_data")
-    chk.consult(mk)
-    g = CFG(mk.node)
-    sc = Scope(ix, mk)
+    ms = chk.summary(mk)
+    frp = ("param", mk.param_names[1])
+    setups = [(i, e) for i, e in enumerate(ms.effects) if e.kind == "call" and is_call(e.value, "setup_from_data")
+              and e.value[1][1] == frp]
+    gens = [t for _, t, _ in ms.returns if is_call(t, "MultiFrameData")]
+    ok = bool(setups) and bool(gens) and len(gens) == len(ms.returns)
+    for t in gens:
+        wrapper = call_arg(t, 1, "data")
+        ok = ok and call_arg(t, 0, "frame") == frp and any(e.value[2] and e.value[2][0] == wrapper and not e.ctx
+                                                           for _, e in setups)
+    # nothing but earlier rejections guards the set-up: its path condition is a subset of the return's
+    rpcs = [set(pc) for pc, t, _ in ms.returns]
+    ok = ok and all(any(set(e.pc) <= r for r in rpcs) for _, e in setups)
+    chk.require(ok, "R08.3", "setup-from-data-dominates-generator", "a frame's record generator can be created without "
+                "the frame and its channels having been set up from the very data wrapper it reads", mk.where)
     sfd = ix.get_method("FrameItem", "setup_from_data")
-    mfd = ix.get_class("MultiFrameData")
-    sn = g.nodes_where(lambda s: any(isinstance(c, ast.Call) and sfd in ix.resolve_call(c, sc)[0]
-                                     for c in walk_expr(header_expr(s) or ast.Pass())))
-    cn = g.nodes_where(lambda s: any(isinstance(c, ast.Call) and ix.infer(c.func, sc) == ("cls", mfd)
-                                     for c in walk_expr(header_expr(s) or ast.Pass())))
-    chk.require(bool(sn) and bool(cn) and all(g.dominated_by(c, sn) for c in cn), "R08.3",
-                "setup-from-data-dominates-generator", "a frame's record generator can be created without the frame "
-                "and its channels having been set up from the data", mk.where)
-    s = norm(sfd.node)
-    chk.require("for channel in self.channels.value" in s and "channel.set_dimension_and_repr_code_from_data(data)" in s,
-                "R08.3", "every-channel-set-up", "not every channel of the frame gets its dimension and code from the data",
-                sfd.where)
+    ss = chk.summary(sfd)
+    data = ("param", sfd.param_names[1])
+    chans = A(SELF, "channels", "value")
+    per = [e for e in ss.effects if e.kind == "call" and is_call(e.value, "set_dimension_and_repr_code_from_data")
+           and len(e.loops()) == 1 and e.loops()[0][2] == chans and e.value[1][1] == ("elem", chans, e.loops()[0][1])
+           and e.value[2] == (data,)]
+    ok = bool(per) and all(all(l in (chans, ("not", ("not", chans))) or l == chans for l in e.pc) for e in per)
+    chk.require(ok, "R08.3", "every-channel-set-up", "not every channel of the frame gets its dimension and code from the "
+                "data", sfd.where)
     sdr = ix.get_method("ChannelItem", "set_dimension_and_repr_code_from_data")
-    s = norm(sdr.node)
-    chk.require("data[self.name]" in s and "_set_dimension_from_data" in s and "_set_repr_code_from_data" in s, "R08.3",
-                "both-descriptors-from-own-data", "a channel's dimension and code are not both derived from its own data",
-                sdr.where)
+    rs = chk.terms.inline(sdr, 3, stop=lambda g: g.kind == "staticmethod" or (g.cls is not None and g.cls.name in (
+        "ReprCodeConverter", "ReprCodeAttribute")))
+    own = ("sub", ("param", sdr.param_names[1]), A(SELF, "name"))
+    dim_st = [e for e in rs.effects if e.kind == "store_attr" and e.base == A(SELF, "dimension") and e.key == "value"]
+    dt_st = [e for e in rs.stores("_cast_dtype") if e.base == SELF]
+    ok = bool(dim_st) and bool(dt_st) and all(contains(e.value, own) for e in dim_st + dt_st) and \
+        not any(contains(e.value, lambda x: x[0] == "sub" and x[1] == own[1] and x != own) for e in dim_st + dt_st)
+    chk.require(ok, "R08.3", "both-descriptors-from-own-data", "a channel's dimension and code are not both derived from "
+                "its own data (data[<its name>])", sdr.where)
 
 
 def r08_4_dimension_rule(chk):
+    from ..terms import (SELF, NONE, A, K, contains, subterms, is_call, call_arg, pp, alternatives, return_alternatives,
+                         raise_conditions, int_norm)
+    from ._layout import field_plan
     ix = chk.ix
-    f = ix.get_method("ChannelItem", "_set_dimension_from_data")
-    chk.consult(f)
-    s = norm(f.node)
-    chk.require("dim = list(sub_data.shape[1:]) or [1]" in s, "R08.4", "dimension=[1]-or-shape[1:]",
-                "the dimension is not [1] for 1-D data and shape[1:] otherwise", f.where)
-    chk.require("if self.dimension.value != dim" in s and "raise RuntimeError" in s, "R08.4",
-                "conflicting-preset-dimension-raises", "a pre-set DIMENSION that differs from the data is accepted", f.where)
-    chk.require("_compare_element_limit_vs_dimension(self.element_limit.value, dim)" in s, "R08.4",
-                "element-limit-must-bound-dimension", "a pre-set ELEMENT-LIMIT is not checked against the dimension",
-                f.where)
+    sdr = ix.get_method("ChannelItem", "set_dimension_and_repr_code_from_data")
+    chk.consult(sdr)
+    rs = chk.terms.inline(sdr, 3, stop=lambda g: g.kind == "staticmethod" or (g.cls is not None and g.cls.name in (
+        "ReprCodeConverter", "ReprCodeAttribute")))
+    own = ("sub", ("param", sdr.param_names[1]), A(SELF, "name"))
+    dim = ("or", (("call", ("global", "list"), (("sub", A(own, "shape"), ("slice", K(1), NONE, NONE)),), ()),
+                  ("list", (K(1),))))
+    dimv, elv = A(SELF, "dimension", "value"), A(SELF, "element_limit", "value")
+    dim_st = [e for e in rs.effects if e.kind == "store_attr" and e.base == A(SELF, "dimension") and e.key == "value"]
+    chk.require(bool(dim_st) and all(e.value == dim for e in dim_st), "R08.4", "dimension=[1]-or-shape[1:]",
+                f"the dimension taken from the data is `{[pp(e.value)[:60] for e in dim_st]}`, not [1] for 1-D data and "
+                f"shape[1:] otherwise", sdr.where)
+    rc = raise_conditions(rs)
+    conflict = [pc for pc, _ in rc if ("cmp", "!=", dimv, dim) in pc and dimv in pc]
+    chk.require(bool(conflict), "R08.4", "conflicting-preset-dimension-raises",
+                "a pre-set DIMENSION that differs from the data is accepted", sdr.where)
+    bound = [pc for pc, _ in rc if elv in pc and any(
+        l[0] == "not" and is_call(l[1], "_compare_element_limit_vs_dimension") and l[1][2] == (elv, dim) for l in pc)]
+    chk.require(bool(bound), "R08.4", "element-limit-must-bound-dimension",
+                "a pre-set ELEMENT-LIMIT is not checked against the dimension", sdr.where)
     cmpf = ix.get_method("ChannelItem", "_compare_element_limit_vs_dimension")
-    s = norm(cmpf.node)
-    chk.require("if len(el) < len(dim)" in s and "if el[i] < dim[i]" in s, "R08.4", "element-limit-comparison",
+    cs = chk.summary(cmpf)
+    el_p, dim_p = (("param", n) for n in cmpf.param_names[-2:])
+
+    def ln(x):
+        return ("call", ("global", "len"), (x,), ())
+    alts = [(tuple(int_norm(l) for l in c), t) for c, t in return_alternatives(cs)]
+    shorter = [c for c, t in alts if t == K(False) and ("cmp", "<", ln(el_p), ln(dim_p)) in c]
+    comp_ok = False
+    for c, t in alts:
+        # the original loop: `return False` under el[i] < dim[i] for i in range(len(dim))
+        if t == K(False) and any(l[0] == "cmp" and l[1] == "<" and l[2][0] == "sub" and l[2][1] == el_p and
+                                 l[3][0] == "sub" and l[3][1] == dim_p and l[2][2] == l[3][2] for l in c):
+            comp_ok = True
+        # not any(limit < size for limit, size in zip(el, dim))  /  all(limit >= size ...)
+        for neg_, fn, op in ((True, "any", "<"), (False, "all", ">=")):
+            body = t[1] if (neg_ and t[0] == "not") else (t if not neg_ else None)
+            if body is not None and is_call(body, fn, 1) and body[2][0][0] == "comp":
+                comp = body[2][0]
+                it = comp[3][0][1]
+                if is_call(it, "zip", 2) and it[2] == (el_p, dim_p) and comp[2][0] == "cmp" and comp[2][1] == op and \
+                        comp[2][2] == ("sub", ("elem", it, comp[2][2][1][2] if comp[2][2][0] == "sub" else None), K(0)) \
+                        and comp[2][3][0] == "sub" and comp[2][3][2] == K(1):
+                    comp_ok = True
+    chk.require(bool(shorter) and comp_ok, "R08.4", "element-limit-comparison",
                 "the element limit comparison is not component-wise >= with at least as many entries", cmpf.where)
-    dd = ix.get_method("SourceDataWrapper", "determine_dtypes")
-    s = norm(dd.node)
-    chk.require("if dset_row0.ndim > 2" in s and "raise RuntimeError" in s and "dset_row0.shape[-1]" in s, "R08.4",
-                "row-layout-2d-width-and-3d-rejected", "the chunk layout does not use shape[-1] for 2-D data and reject "
-                "more than two dimensions", dd.where)
+    fp = field_plan(chk)
+    row0 = None
+    ok = True
+    three = [(c, t) for c, t in fp.alts if t[0] == "tuple" and len(t[1]) == 3]
+    two = [(c, t) for c, t in fp.alts if t[0] == "tuple" and len(t[1]) == 2]
+    ok = bool(three) and bool(two)
+    for c, t in three:
+        w = t[1][2]
+        good = w[0] == "sub" and w[2] == K(-1) and w[1][0] == "attr" and w[1][2] == "shape"
+        row0 = w[1][1] if good else row0
+        ok = ok and good and any(int_norm(l) == ("cmp", ">=", A(row0, "ndim"), K(2)) for l in c)
+    if row0 is not None:
+        ok = ok and all(any(int_norm(l) in (("cmp", "<=", A(row0, "ndim"), K(1)),) for l in c) for c, t in two)
+        ok = ok and any(any(int_norm(l) == ("cmp", ">=", A(row0, "ndim"), K(3)) for l in pc) for pc, _, _ in fp.raises)
+    chk.require(ok and row0 is not None, "R08.4", "row-layout-2d-width-and-3d-rejected",
+                "the chunk layout does not use shape[-1] for 2-D data (and only then) and reject more than two dimensions",
+                fp.func.where)
 
 
 def r08_5_record_layout(chk):
+    from ..terms import SELF, A, contains, is_call, pp, return_alternatives
+    from ._layout import row_body
     ix = chk.ix
-    body = ix.get_method("FrameData", "_make_body_bytes")
-    chk.consult(body)
-    loops = [n for n in walk_local(body.node) if isinstance(n, ast.For) and norm(n.iter) == "self._slots"]
-    ok = len(loops) == 1 and len(loops[0].body) == 1 and isinstance(loops[0].body[0], ast.AugAssign) \
-        and "tobytes()" in norm(loops[0].body[0])
+    rb = row_body(chk)
+    slots = A(SELF, "_slots")
+    ok = len(rb.pieces) == 1 and rb.pieces[0][0] == slots and rb.pieces[0][1] is not None and \
+        is_call(rb.pieces[0][2], "tobytes") and contains(rb.pieces[0][2], rb.pieces[0][1]) and not rb.tail
     chk.require(ok, "R08.5", "field-wise-serialisation",
                 "the row is not serialised slot by slot (serialising the whole structured row would also write the "
-                "padding / hidden bytes of a non-packed source layout)", body.where)
+                "padding / hidden bytes of a non-packed source layout)", rb.func.where)
     ndw = ix.get_class("NumpyDataWrapper")
     lc = ndw.lookup("load_chunk")
-    chk.consult(lc)
-    g = CFG(lc.node)
-    fast = [i for i in g.branch if any(isinstance(x, ast.Return) and "_data_source" in norm(x)
-                                       for b in g.stmt[i].body for x in ast.walk(b))]
-    ok = len(fast) == 1 and norm(g.stmt[fast[0]].test).replace(" ", "") in ("self._dtype==self._data_source.dtype",
-                                                                           "self._data_source.dtype==self._dtype")
+    ls = chk.summary(lc)
+    ds = A(SELF, "_data_source")
+    eqs = (("cmp", "==", A(SELF, "_dtype"), A(ds, "dtype")), ("cmp", "==", A(ds, "dtype"), A(SELF, "_dtype")))
+    fast = [(c, t) for c, t in return_alternatives(ls) if t[0] == "sub" and t[1] == ds]
+    ok = bool(fast) and all(len(c) == 1 and c[0] in eqs for c, t in fast)
     chk.require(ok, "R08.5", "zero-copy-only-for-identical-dtype",
-                f"the structured-array fast path is taken under `{norm(g.stmt[fast[0]].test) if fast else '?'}`; only exact "
+                f"the structured-array fast path is taken under `{[pp(l) for c, t in fast for l in c]}`; only exact "
                 f"dtype equality guarantees identical field offsets, item size and byte order", lc.where)
